@@ -14,7 +14,7 @@ CHUNK = 40
 RULE = ('suite hierarchies (flat with plain names / globs, one and two sub-suites, depth 2, directories with exactly.suite, sub/*.case, [suites] globs matching directories and suite files) x every assignment of the 12 verdicts '
         '(PASS, FAIL, XFAIL, XPASS, SKIPPED, HARD_ERROR, VALIDATION_ERROR, instruction SYNTAX_ERROR, act-phase SYNTAX_ERROR, INTERNAL_ERROR, FILE_ACCESS_ERROR, case file that is not UTF-8) to <= 2 cases '
         '(3 cases on the flat hierarchy; thorough: 3 everywhere) x reporter {progress, junit}; plus invalid suites (listed twice in several ways, diamond, cycle, self reference, '
-        'missing case / suite, syntax error, unknown section); non-trivial = at least one case is not PASS or the hierarchy has sub-suites or is invalid')
+        'missing case / suite, syntax error, unknown section, suite file that is not UTF-8, names below a regular file, symbolic-link loops, patterns that are not valid glob patterns); non-trivial = at least one case is not PASS or the hierarchy has sub-suites or is invalid')
 ASSUMPTIONS = [
     'durations printed by the reporters are ignored',
     'case actions are virtual children whose start is the execution marker',
@@ -114,6 +114,16 @@ INVALID = {
     'unknown-section': {'main.suite': ([], ['c.case'], '[no-such-section]\nx\n')},
     'quoted-missing-with-wildcard-chars': {'main.suite': ([], ['c.case', "'gone[1].case'"])},
     'quoted-missing-suite-with-wildcard-chars': {'main.suite': (["'no-such*.suite'"], ['c.case'])},
+    # files that cannot be read / reached, patterns that are no patterns: all are errors OF THE SUITE (exit 3), never a traceback
+    'suite-not-utf8': {'main.suite': {'bytes': b'\xff\xfe[cases]\nc.case\n'}},
+    'sub-suite-not-utf8': {'main.suite': (['s.suite'], ['c.case']), 's.suite': {'bytes': b'[cases]\nx.case\n\xff\xfe'}},
+    'case-below-a-regular-file': {'main.suite': ([], ['c.case', 'c.case/x.case'])},
+    'suite-below-a-regular-file': {'main.suite': (['c.case/s.suite'], ['c.case'])},
+    'case-symlink-loop': {'main.suite': ([], ['c.case', 'loop.case']), 'loop.case': {'symlink': 'loop.case'}},
+    'suite-symlink-loop': {'main.suite': (['loop.suite'], ['c.case']), 'loop.suite': {'symlink': 'loop.suite'}},
+    'glob-double-star-inside-component': {'main.suite': ([], ['c.case', 'x**.case'])},
+    'glob-absolute-pattern': {'main.suite': ([], ['/*-no-such-dir-at-root/*.case'])},
+    'suite-glob-double-star-inside-component': {'main.suite': (['s**.suite'], ['c.case'])},
     'dir-without-default-suite': {'main.suite': (['emptydir'], ['c.case']), 'emptydir/readme.txt': None},
 }
 
@@ -139,6 +149,15 @@ def cases(tier):
 def write_suite(w, path, spec):
     if spec is None:
         w.write(path, 'not a suite\n')
+        return
+    if isinstance(spec, dict):
+        p = w.write(path, '')
+        if 'bytes' in spec:
+            with open(p, 'wb') as f:
+                f.write(spec['bytes'])
+        else:
+            os.unlink(p)
+            os.symlink(spec['symlink'], p)
         return
     suites, cases_ = spec[0], spec[1]
     extra = spec[2] if len(spec) > 2 else ''
